@@ -115,6 +115,53 @@ Proof.
 Qed.
 Print Assumptions C46_v3_always_encodes.
 
+(* a consistency level configured on the profile (or assigned to the legacy session) is the one in effect for statements
+   without their own, on ordinary and on DBaaS clusters alike; only a level nobody chose follows the cluster kind *)
+Theorem C46_configured_level_in_effect : forall dbaas m k st pr se t pg pv f pcl scl,
+  s_cl st = None ->
+  effective m k st (mkProf (configured_cl dbaas pcl) (p_serial pr) (p_retry pr) (p_timeout pr) (p_rowf pr) (p_lbp pr) (p_spec pr))
+            (mkSess (configured_cl dbaas scl) (d_serial se) (d_retry se) (d_timeout se) (d_rowf se) (d_lbp se) (d_fetch se)
+                    (d_use_ts se) (d_ts se) (d_keyspace se)) t pg pv = Some f ->
+  (forall v, m = Profiles -> pcl = Some v -> m_cl f = v)
+  /\ (forall v, m = Legacy -> scl = Some v -> m_cl f = v)
+  /\ (m = Profiles -> pcl = None -> m_cl f = if dbaas then 6 else 10)
+  /\ (m = Legacy -> scl = None -> m_cl f = if dbaas then 6 else 10).
+Proof.
+  intros dbaas m k st pr se t pg pv f pcl scl Hs H.
+  destruct (effective_common _ _ _ _ _ _ _ _ _ H) as (A & _). unfold eff_cl in A. rewrite Hs in A.
+  repeat split; intros; subst; cbn in A; exact A.
+Qed.
+Print Assumptions C46_configured_level_in_effect.
+
+(* the speculative-execution policy in effect is really used: its timer is the one armed when the request is created,
+   whenever the policy's delay is below the client timeout -- in particular when there is NO client timeout
+   (execute(timeout=None), request_timeout=None, every execute_concurrent* call) *)
+Theorem C46_speculative_policy_in_effect : forall p delay timeout, 0 <= delay ->
+  (timeout = None \/ exists t, timeout = Some t /\ delay < t) -> first_timer (Some p) delay timeout = TSpec delay.
+Proof.
+  intros p delay timeout Hd H. unfold first_timer. destruct (0 <=? delay) eqn:E; [|apply Z.leb_gt in E; lia].
+  destruct H as [->|(t & -> & Hlt)]; [reflexivity|]. destruct (delay <? t) eqn:F; [reflexivity | apply Z.ltb_ge in F; lia].
+Qed.
+Print Assumptions C46_speculative_policy_in_effect.
+
+Theorem C46_no_policy_no_speculation : forall delay timeout d, first_timer None delay timeout <> TSpec d.
+Proof. intros delay timeout d. unfold first_timer. destruct timeout; discriminate. Qed.
+Print Assumptions C46_no_policy_no_speculation.
+
+(* giving a legacy setting commits the cluster to legacy mode (so that setting is the one in effect, see
+   C46_else_profile_or_session with m = Legacy) and it stays there; likewise for profiles; whatever the history *)
+Theorem C46_mode_follows_configuration : forall ops m,
+  (forall m', cfg_step m SetLegacy = Some m' -> mode_of m' = Legacy /\ mode_of (cfg_final m' ops) = Legacy)
+  /\ (forall m', cfg_step m UseProfiles = Some m' -> mode_of (cfg_final m' ops) = Profiles).
+Proof.
+  intros ops m. split; intros m' H.
+  - assert (m' = CLegacy) by (destruct m; cbn in H; congruence). subst m'. split; [reflexivity|].
+    clear H. induction ops as [|o ops IH]; [reflexivity|]. destruct o; cbn; exact IH.
+  - assert (m' = CProfiles) by (destruct m; cbn in H; congruence). subst m'.
+    clear H. induction ops as [|o ops IH]; [reflexivity|]. destruct o; cbn; exact IH.
+Qed.
+Print Assumptions C46_mode_follows_configuration.
+
 Example C46_nonvacuous :
   let st := mkStmt (Some 6) None None (FSet (Some 50)) (Some 9) true in
   let pr := mkProf 10 (Some 8) 20 (Some 30) 40 41 42 in
